@@ -267,6 +267,16 @@ func (r *Result) Finish(verifDir string, seed int64) int {
 		"wall_s":      time.Since(r.start).Seconds(),
 		"violations":  nViol,
 	}
+	nz := func(x []string) []string {
+		if x == nil {
+			return []string{}
+		}
+		return x
+	}
+	ev["assumptions"] = nz(r.Assumptions)
+	cov := ev["coverage"].(map[string]any)
+	cov["not_decided"] = nz(r.NotDecided)
+	cov["broken"] = nz(r.BrokenMsgs)
 	_ = os.MkdirAll(filepath.Join(verifDir, "evidence"), 0o755)
 	b, _ := json.MarshalIndent(ev, "", " ")
 	if err := os.WriteFile(filepath.Join(verifDir, "evidence", r.Property+".json"), b, 0o644); err != nil {
